@@ -95,14 +95,16 @@ CHECKS = {
              'evaluation i in row i and element j in column j; end-to-end Derivative on x with 0..3 axes and per-element symbolic '
              'coefficients (C and Fortran memory order): shape preserved, entry idx depends only on element idx and equals the '
              'scalar run; tables with all-NaN columns: the other columns are unaffected and the NaN column returns NaN; '
-             '*args/**kwds forwarded on every call; one object called twice at the same point with other positional / keyword '
+             '*args/**kwds forwarded on every call; concrete witness: scalar call == array element bit for bit on a grid (nominal step, '
+             'derivatives); one object called twice at the same point with other positional / keyword '
              'arguments: the second result is a term over the second arguments only and equals a fresh object\'s.',
         note='Trusted: z3 for path feasibility; exact arithmetic. Bit-identity in float64 follows only under the stated '
              'assumption that numpy elementwise kernels are position-independent. Bounds: <= 7 rows, <= 4 columns in the forking unit.',
         technique=TECH + '; non-interference by self-composition over solver-validated paths',
         design='3/C08'),
     'C09': dict(
-        text='RESTRICTED sub-claim (threads not covered), solver verdict by inductive / two-step harnesses on the real code: rule '
+        text='RESTRICTED sub-claim (threads not covered), solver verdict by inductive / two-step harnesses on the real code (plus one concrete '
+             'fresh-interpreter witness: seven results are bit-identical before and after a zoo of other objects was used): rule '
              'cache with a solver-decided symbolic dictionary and symbolic UNBOUNDED n, order, step ratios for all 16 method pairs '
              '- warm rule == cold rule on every feasible path; step generator run from an arbitrary symbolic remembered state - '
              'output and branch decisions contain no pre-state symbol; Derivative setter round trips with symbolic intermediate '
@@ -171,7 +173,7 @@ CHECKS = {
              'parameters (k<=2). Dea (real class): one __call__ from an arbitrary symbolic table for every control '
              'state (n, nres class), all comparison outcomes explored with z3 deciding feasibility; per path index safety, no '
              'exception, every divisor non-zero, abserr>=5*eps*|result|; EpsAlg guard threshold <= 1e-30; exhaustive search of the finite control graph gives "any length" for limexp in '
-             '{3,5,7} (odd <=9 thorough); outside the guards the value after term m is the Shanks entry e_k(S_(m-2k)) of the last 2k+1 terms for ALL terms (real Dea on symbolic terms, control path of a rational shadow run; limexp 3, 5, also after the table is full); first terms agree with dea3.',
+             '{3,4,5,7} (plus 6, 9 thorough; even sizes are rounded up); outside the guards the value after term m is the Shanks entry e_k(S_(m-2k)) of the last 2k+1 terms for ALL terms (real Dea on symbolic terms, control path of a rational shadow run; limexp 3, 5, also after the table is full); first terms agree with dea3.',
         note='Trusted: z3; table contents arbitrary at every call (over-approximation of histories, sound for absence of '
              'violations); reciprocal of symbolic differences uninterpreted; abstract counterexamples are reported only when a '
              'sequence family realises them on the real class. Known finding (table overrun after convergence) listed.',
